@@ -40,6 +40,12 @@ func checkC13(c *Ctx) {
 	c.Rule("C13-R11", "the cell buffer keeps its own copy of the combining runes: the comparison of what is shown with what is current cannot be changed by the caller reusing its slice (an unchanged cell would be repainted)")
 	c.Expect("C13-R11", 1)
 	c.asRule("C08-R4", "C13-R11", func() { c08Alias(c, p, cbMethods(p)) })
+	c.Rule("C13-R12", "only calls whose contract is a repaint can force cells dirty: every force-dirty site of the terminfo screen is reached from Show (C13-R2), Sync, Init/Resume, Suspend/Fini, LockRegion, SetSize or the main loop's size report only; a setter that forces a repaint does so behind a test that the value really changes (against the field it assigns)")
+	c.Expect("C13-R12", 3)
+	checkForceDirtyEntries(c, p, "C13-R12", "tScreen")
+	c.Rule("C13-R13", "every Show looks at every cell: nothing but the running state stands between draw and the cell loop, or — if a flag does — everything that can make a cell dirty (force-dirty marker, unlock, content store) raises it (an unlocked region is repainted by the first Show after the unlock)")
+	c.Expect("C13-R13", 1)
+	checkCellLoopGate(c, p, "C13-R13", "tScreen")
 	c.Rule("C13-R10", "a cell marked dirty (marker rune zero: SetDirty(true), Invalidate, UnlockCell) is reported dirty whatever it holds, also one nothing was ever stored in; combining runes are compared in full")
 	c.Expect("C13-R10", 2)
 	c.asRule("C08-R9", "C13-R10", func() { checkDirtyDecisions(c, p, "C08-R9") })
